@@ -195,7 +195,9 @@ class Agent(dbus.service.Object):
             self.stop()
             return True
 
-        for hdl in self._handlers:
+        # terminating a handler without a session closes it,
+        # which removes it from the list
+        for hdl in tuple(self._handlers):
             hdl.terminate()
         self._logger.info('Waiting on sessions to terminate')
         return False
